@@ -865,6 +865,16 @@ theorem applyOp_derives [Add α] [Zero α] [Div α] [NatCast α] {ws ws' : List 
       have : x = d := by simpa using hx
       rw [this]
       exact derives_self (hw d (List.mem_of_getElem? hd)) (List.mem_of_getElem? hd)
+  | dup i =>
+    simp only [applyOp] at h
+    cases hd : ws[i]? with
+    | none => simp [hd] at h
+    | some d =>
+      simp only [hd, Option.map_some, Option.some.injEq] at h
+      subst h
+      exact replace_derives hw hd (fun x hx => by
+        have : x = d := by simpa using hx
+        rw [this]; exact derives_self (hw d (List.mem_of_getElem? hd)) (by simp))
   | merge =>
     simp only [applyOp] at h
     split at h
